@@ -160,6 +160,8 @@ def run(ctx):
             lines = []
             for d, evs in cases:
                 other = charts.Gen(rng, max_states=4, dm=dm, nvars=nv).chart()
+                while charts.xml(other, dm, nv) == charts.xml(d, dm, nv):      # "another document" must be another one
+                    other = charts.Gen(rng, max_states=5, dm=dm, nvars=nv).chart()
                 k = rng.randint(0, len(evs))
                 lines.append(sline(engine, d, evs[:k], charts.events_for(rng, charts.Gen(rng), rng.randint(0, 4)), other, dm, nv))
             outs = run_serial(ctx, lines)
